@@ -104,6 +104,8 @@ var c17Seeds = []string{
 	`{job=""} |= "" != "" |~ "" !~ "" | json a="" | logfmt b="" | pattern "" | regexp "" | line_format "" | label_format c="" | drop d="" | keep e=~"" | f="" | g=~""`,
 	`{job="j"} | logfmt lvl=""`, `{job="j"} | json lvl=""`, `{job="j"} | pattern ""`, `{job="j"} |= ip("")`, `{job="j"} | addr == ip("")`, `count_over_time({job="j"} | logfmt lvl="" [1m])`,
 	`label_replace(count_over_time({job="j"}[5s]), "", "", "", "")`, `sum_over_time({job="j"} | unwrap v | v="" [5s])`, `quantile_over_time(0, {job="j"} | unwrap bytes(v) [0s])`, `topk(1, count_over_time({job=""}[1ns] offset 0s)) by ()`,
+	`topk(9223372036854775807, count_over_time({job="j"}[5s]))`, `bottomk(4611686018427387904, sum by (app) (count_over_time({job="j"}[5s])))`, `topk(2147483648, count_over_time({job="j"}[5s])) by (app)`,
+	`quantile_over_time(1e308, {job="j"} | unwrap v [5s])`, `count_over_time({job="j"}[9223372036s])`, `count_over_time({job="j"}[1ns] offset 9223372036s)`,
 	`{job="j"} # comment`, "{job=\"j\"}\n|= `raw`\n| json", `{job="j"} |= "\x00\xff"`, `{job="j"} |~ "(a|b)*c{1,3}[[:alpha:]]\\pL"`,
 }
 
